@@ -103,3 +103,45 @@ def setattr_spec(C, self, attribute, value):
     if '_pos' in self.attrs and sym.truth(self.attrs['_pos'] > V.n):
         self.attrs['_pos'] = 0          # nothing documents a move; but 0 <= pos <= len must keep holding
     return None
+
+
+# ---- keyword route for the string / bytes / bool rows: a stated length must agree with the value ------------------------------
+STR_ROWS = [('hex', 'ff', 8), ('hex', '0x1f3', 12), ('bin', '101', 3), ('oct', '17', 6), ('bool', True, 1), ('bin', '', 0)]
+# (bytes= is a window constructor -- length/offset select bits -- and is specified in contracts/sources.py)
+
+
+def _kw_str_shapes():
+    out = []
+    for nm, val, units in STR_ROWS:
+        def build(S, interp, nm=nm, val=val):
+            return [], {nm: val, 'length': S.int('n')}
+
+        def real(vals, nm=nm, val=val):
+            return [], {nm: val, 'length': vals['n']}
+        out.append(Shape(f'{nm}={val!r}', build, real))
+    return out
+
+
+def _kw_str_spec(clsname):
+    def f(C, **kw):
+        n = kw.pop('length')
+        (name, v), = kw.items()
+        units = next(u for nm, val, u in STR_ROWS if nm == name and val == v)
+        if sym.truth(lnot(sym.eq(n, units))):
+            C.throw('ValueError')
+        if name == 'bytes':
+            V = BA.concrete([bool((b >> (7 - k)) & 1) for b in v for k in range(8)])
+        elif name == 'bool':
+            V = BA.concrete([bool(v)])
+        else:
+            per = {'hex': 4, 'oct': 3, 'bin': 1}[name]
+            digits = v[2:] if v[:2] in ('0x', '0o', '0b') else v
+            V = BA.concrete([bool((int(ch, 16) >> (per - 1 - k)) & 1) for ch in digits for k in range(per)])
+        return mk_bits(C, C.cls(clsname), V, pos=0)
+    return f
+
+
+for _cn, _q in CLASSES.items():
+    Contract(_q + '@keyword-string-route', target=_q, spec=_kw_str_spec(_cn), shapes=_kw_str_shapes(), props={'C15', 'C02'}, kind='public',
+             note=f"{_cn}(hex=.., length=n) etc.: a stated length that disagrees with the value's length raises CreationError; "
+                  "otherwise exactly the value's bits")
